@@ -47,6 +47,11 @@ def generate(ctx):
         nmax = rng.choice([4, 6, 8, 12]) if ctx.quick else rng.choice([4, 8, 12, 20, 30])
         g = gen_graph(rng, nmax, rng.choice([0.0, 0.3, 0.6, 1.0]))
         out.append({"nodes": g, "oracle": [rng.randint(0, 7) for _ in range(len(g))]})
+    # a few real thread-pool runs with a slow checkpoint back end on the executor children (regression for S20)
+    for j in range(ctx.n(3, 25)):
+        n = rng.randint(2, 4)
+        out.append({"fam": "thread", "n": n, "threaded": sorted(rng.sample(range(n - 1), rng.randint(1, n - 1))),
+                    "delay": rng.choice([0.05, 0.1])})
     if not ctx.quick:
         out.extend(enumerate_small())
     return out
@@ -112,7 +117,52 @@ def make_hook(children, ex, oracle):
     return hook
 
 
+def run_threaded(case):
+    """real ThreadPoolExecutor child whose checkpoint back end is slow: the parent must not return early (S20)"""
+    import time
+    from concurrent.futures import ThreadPoolExecutor
+    from pyiron_workflow import Workflow
+    from pyiron_workflow.channels import NOT_DATA
+    from pyiron_workflow.storage import StorageInterface
+
+    class Slow(StorageInterface):
+        def _save(self, node, filename, /, **kw):
+            time.sleep(case["delay"])
+
+        def _load(self, filename, /, **kw):
+            raise FileNotFoundError
+
+        def _has_saved_content(self, filename, /, **kw):
+            return False
+
+        def _delete(self, filename, /, **kw):
+            pass
+    nodes.reset()
+    wf = Workflow("wt", autoload=None)
+    chain = []
+    for i in range(case["n"]):
+        node = nodes.Lin1(label=f"n{i}", tag=i, k=i + 1, **({"a": 2} if i == 0 else {}))
+        wf.add_child(node)
+        if i:
+            node.inputs.a.connect(chain[-1].outputs.y)
+        chain.append(node)
+    ex = ThreadPoolExecutor(2)
+    for i in case["threaded"]:
+        chain[i].executor = ex
+        chain[i].checkpoint = Slow()
+    try:
+        ret = dict(wf.run())
+        ran = [c.outputs.y.value is not NOT_DATA for c in chain]
+        res = ["ok", ran, [bool(c.running) for c in chain] + [bool(wf.running)], [t for t, a in nodes.CALLS]]
+    except Exception as e:
+        res = ["err", type(e).__name__]
+    ex.shutdown(wait=True)
+    return {"threaded": res}
+
+
 def run_impl(case):
+    if case.get("fam") == "thread":
+        return run_threaded(case)
     from pyiron_workflow.channels import NOT_DATA
     nodes.reset()
     wf, children, ex = build(case)
@@ -150,7 +200,7 @@ def graph_coq(case):
 
 
 def model_term(case):
-    if "_order" not in case:
+    if case.get("fam") == "thread" or "_order" not in case:
         return None
     return (f"g_obs {graph_coq(case)} {cl(cn(u) for u in case['_order'])} "
             f"{cl(cn(u) for u in case['oracle'])}")
@@ -167,6 +217,17 @@ def expected_values(case):
 def oracle(case, obs):
     if not isinstance(obs, dict):
         return f"crash: driver observation {obs}"
+    if "threaded" in obs:
+        r = obs["threaded"]
+        if r[0] != "ok":
+            return f"raised: threaded run raised {r[1]}"
+        if not all(r[1]):
+            return "early-return: run() returned before every child had run (a thread-pool child was still in its epilogue)"
+        if any(r[2]):
+            return "left-running: something is still running after run() returned"
+        if sorted(r[3]) != list(range(case["n"])):
+            return "not-once: a child's function was not called exactly once"
+        return None
     (log, outs, done), (wiring, starting) = obs["model"]
     n = len(case["nodes"])
     if obs["res"][0] != "ok":
@@ -197,15 +258,19 @@ def oracle(case, obs):
 
 
 def nontrivial(case, obs):
+    if case.get("fam") == "thread":
+        return True
     ups = [set(u for inp in nd["ins"] if inp[0] == "n" for u in inp[1]) for nd in case["nodes"]]
     return any(ups) and (any(len(u) >= 2 for u in ups) or any(nd["ex"] for nd in case["nodes"]))
 
 
 def key(case):
-    return [case["nodes"], case["oracle"]]
+    return case if case.get("fam") == "thread" else [case["nodes"], case["oracle"]]
 
 
 def shrink_candidates(case):
+    if case.get("fam") == "thread":
+        return
     ns = case["nodes"]
     n = len(ns)
     # drop the last node / a leaf node
@@ -247,6 +312,8 @@ def distribution(results):
     remote = collections.Counter()
     edges = 0
     for c, enc, v, o in results:
+        if c.get("fam") == "thread":
+            continue
         sizes[len(c["nodes"])] += 1
         remote[sum(1 for nd in c["nodes"] if nd["ex"])] += 1
         edges += sum(len(inp[1]) for nd in c["nodes"] for inp in nd["ins"] if inp[0] == "n")
